@@ -1,17 +1,17 @@
-//! C01 — engine not implemented yet.
+//! C01 — engine over the shared ST-core corpus (see `stcore::judge`).
 
 use crate::fw::*;
 use crate::iso::WorkerFn;
 use serde_json::Value;
 
-pub fn run(_ctx: &Ctx) -> EngineResult {
-    machinery("engine C01 not implemented")
+pub fn run(ctx: &Ctx) -> EngineResult {
+    crate::stcore::judge::run_engine(ctx, "C01")
 }
 
-pub fn check_case(_case: &Value) -> Vec<Violation> {
-    Vec::new()
+pub fn check_case(case: &Value) -> Vec<Violation> {
+    crate::stcore::judge::replay("C01", case)
 }
 
 pub fn workers() -> Vec<(&'static str, WorkerFn)> {
-    Vec::new()
+    vec![("stcore_batch", crate::stcore::exec::worker_batch as WorkerFn)]
 }
